@@ -81,14 +81,15 @@ func VerifC16HistoricTicks(v *vrt.T) {
 
 	// start: for the nanosecond-sized settings anywhere within two intervals around the
 	// base (every phase, every Truncate/Round residue); for the second-sized ones within
-	// +-8 ns of an anchor phase inside the interval: its begin, just below/at the middle
+	// +-window ns (8 quick) of an anchor phase inside the interval: its begin, just below/at the middle
 	// (rounding tie) and its end. Span: anything up to maxTicks intervals.
 	var start time.Time
 	if every <= 64 {
 		start = v.Time("start", base-every, base+every)
 	} else {
-		anchor := []int64{0, every / 2, every - 8, every/4 + 1}[v.Choose("phase", 4)]
-		start = v.Time("start", base+anchor-8, base+anchor+8)
+		w := int64(v.Bound("window", 8))
+		anchor := []int64{0, every / 2, every - w, every/4 + 1}[v.Choose("phase", 4)]
+		start = v.Time("start", base+anchor-w, base+anchor+w)
 	}
 	span := int64(v.IntRange("span", 0, maxTicks*int(every)+int(every)-1))
 	stop := start.Add(time.Duration(span))
@@ -108,8 +109,9 @@ func VerifC16HistoricTicks(v *vrt.T) {
 	}
 	n := 0
 	for t := first; t <= stop.UnixNano(); t += every {
-		v.Assert(n < len(qs), "a query for every live tick in the span")
 		if n >= len(qs) {
+			// (whether a tick exactly at the end of the span belongs to it is not specified)
+			v.Assert(t == stop.UnixNano(), "a query for every live tick in the span")
 			break
 		}
 		v.Assert(qs[n].StopTime().UnixNano() == t-offset, "query stop = tick - offset")
